@@ -96,10 +96,10 @@ func (c *clientSide) snap() ([]byte, bool, string, bool) {
 func runRelay(e *core.Env) {
 	rec := e.Rec
 	race := e.Part == "relay-race"
-	rec.Rule("relay: one case = (server protocol S, routed client protocol C incl. direct and chained proxies, target behaviour echo / banner-on-eof / speak-first / close-first / sink, initial payload 0/1/1440/1441/65536 handed to the dial, first data at virtual t in {0, 249 ms, 251 ms, never} relative to the 250 ms initial-payload wait, further writes, who half-closes first, dial failure refused / router reject / name-resolution failure, wait disabled or not, IP or domain target); for http servers additionally plain (non-CONNECT) requests on a kept-alive proxy connection: 2-4 GET/POST/PUT requests with bodies up to 70000 bytes, idle gaps of 0 / 249 ms / 251 ms / 300 ms / 2 s / 40 s before a request and between a request head and its body; class = (S, C, mode, payload class, timing, failure, wait mode)")
+	rec.Rule("relay: one case = (server protocol S, routed client protocol C incl. direct and chained proxies, HTTP proxies also over TLS (HTTPS proxy with and without client certificate; certificate generated per case), target behaviour echo / banner-on-eof / speak-first / close-first / sink, initial payload 0/1/1440/1441/65536 handed to the dial, first data at virtual t in {0, 249 ms, 251 ms, never} relative to the 250 ms initial-payload wait, further writes, who half-closes first, dial failure refused / router reject / name-resolution failure, wait disabled or not, IP or domain target); for http servers additionally plain (non-CONNECT) requests on a kept-alive proxy connection: 2-4 GET/POST/PUT requests with bodies up to 70000 bytes, idle gaps of 0 / 249 ms / 251 ms / 300 ms / 2 s / 40 s before a request and between a request head and its body; class = (S, C, mode, payload class, timing, failure, wait mode)")
 	dnsOnce.Do(func() { fakeDNS = svx.InstallFakeDNS() })
-	protosS := []string{"socks5", "http", "ss128", "none", "socks5auth", "httpauth", "ss256", "ssmulti"}
-	protosC := []string{"direct", "ss128", "none", "socks5", "http", "ss256", "ssmulti"}
+	protosS := []string{"socks5", "http", "ss128", "none", "socks5auth", "httpauth", "ss256", "ssmulti", "httptls", "httpmtls"}
+	protosC := []string{"direct", "ss128", "none", "socks5", "http", "ss256", "ssmulti", "httptls"}
 	type job struct{ S, C string }
 	var jobs []job
 	for _, s := range protosS {
@@ -149,6 +149,11 @@ func pairCase(e *core.Env, ci int, r *core.RNG, S, C string, per int, race bool)
 	}
 	noWait := r.Chance(1, 4)
 	cfg, nsrv := mk(noWait)
+	var tlsTopo *svx.Topo
+	if svx.UsesTLS(S) || svx.UsesTLS(C) {
+		cfg["certs"] = t.Certs()
+		tlsTopo = t
+	}
 	// sometimes the upstream proxy itself is down: the relay's own onward dial fails (also in wait mode)
 	upDown := C != "direct" && r.Chance(1, 4)
 	if upDown {
@@ -167,7 +172,7 @@ func pairCase(e *core.Env, ci int, r *core.RNG, S, C string, per int, race bool)
 		rec.Inconclusive("listeners")
 		return
 	}
-	down, err := svx.NewClient(svx.JSON(t.ClientFor("down", "A", S, ports[0], 0, true, false)))
+	down, err := svx.NewClientTLS(svx.JSON(t.ClientFor("down", "A", S, ports[0], 0, true, false)), tlsTopo)
 	if err != nil {
 		rec.Inconclusive("client: " + err.Error())
 		return
@@ -232,7 +237,7 @@ func pairCase(e *core.Env, ci int, r *core.RNG, S, C string, per int, race bool)
 			if json.Unmarshal(b, &got) != nil {
 				return false
 			}
-						return got.UplinkBytes == expectUp && got.DownlinkBytes == expectDown && got.TCPSessions == sessions
+			return got.UplinkBytes == expectUp && got.DownlinkBytes == expectDown && got.TCPSessions == sessions
 		})
 		if !okStats {
 			rec.Violate("relay", ci, core.Sig("kind", "stats_mismatch", "part", e.Part, "S", S, "C", C), map[string]any{"want_up": expectUp, "want_down": expectDown, "want_sessions_at_least": sessions, "got": got, "logs": inst.LogLines(10)},
@@ -244,7 +249,7 @@ func pairCase(e *core.Env, ci int, r *core.RNG, S, C string, per int, race bool)
 	// ---- plain (non-CONNECT) requests on a kept-alive proxy connection (after the statistics were compared) ----
 	if strings.HasPrefix(S, "http") && !upDown {
 		for k := 0; k < e.N(2, 6); k++ {
-			plainHTTP(e, ci, r, inst, S, C, ports[0], ports[3], race, noWait)
+			plainHTTP(e, ci, r, inst, t, S, C, ports[0], ports[3], race, noWait)
 		}
 	}
 }
